@@ -3,6 +3,7 @@ package zzh
 
 import (
 	"bytes"
+	"encoding/json"
 	"fmt"
 	"time"
 
@@ -192,4 +193,75 @@ func ZZ_C17_groupHash() {
 	idA, idB := common.IsDefaultBeaconID(a.ID), common.IsDefaultBeaconID(b.ID)
 	shapeEq := and((a.PublicKey == nil) == (b.PublicKey == nil), (a.TransitionTime == 0) == (b.TransitionTime == 0), idA == idB, idA || len(a.ID) == len(b.ID))
 	zz.Assert("sensitive_to_membership_size", zz.Implies(and(sameHash, shapeEq), nodesEq))
+}
+
+func init() { zz.Register("ZZ_C17_infoJSON", ZZ_C17_infoJSON) }
+
+// zzInfoDoc mirrors the JSON document chain.Info writes (same keys), so that the harness can edit one member.
+type zzInfoDoc struct {
+	PublicKey   string          `json:"public_key"`
+	ID          string          `json:"beacon_id"`
+	Period      uint64          `json:"period"`
+	Scheme      string          `json:"scheme"`
+	GenesisTime int64           `json:"genesis_time"`
+	GenesisSeed common.HexBytes `json:"genesis_seed"`
+	ChainHash   string          `json:"chain_hash"`
+}
+
+// ZZ_C17_infoJSON: the JSON path of chain info (the real Info.MarshalJSON / Info.UnmarshalJSON and
+// common.HexBytes codecs; the JSON text layer itself is modelled structurally). Encoding then decoding gives
+// an equal info with the same hash, and a document whose embedded chain_hash does not match its (edited)
+// fields is rejected on decode -- also when it is decoded into an Info object that was used before.
+func ZZ_C17_infoJSON() {
+	sch := zzSchemeParam()
+	a := zzSymInfo(sch, "a", zz.Param("seed_a", 2), zz.Param("id_a", 2))
+	b := zzSymInfo(sch, "b", zz.Param("seed_b", 2), zz.Param("id_b", 2))
+	ha := a.Hash()
+	data, err := json.Marshal(a)
+	zz.Assert("info_encodes", err == nil)
+	if err != nil {
+		return
+	}
+	back := new(chain.Info)
+	err = json.Unmarshal(data, back)
+	zz.Assert("info_decodes_what_it_encoded", err == nil)
+	if err == nil {
+		zz.Assert("json_roundtrip_equal", back.Equal(a))
+		zz.Assert("json_roundtrip_same_hash", bytes.Equal(back.Hash(), ha))
+	}
+	// edit one committed member of the document, keep the embedded hash
+	var doc zzInfoDoc
+	if err := json.Unmarshal(data, &doc); err != nil {
+		panic(err)
+	}
+	zz.Assert("document_embeds_the_hash", doc.ChainHash == fmt.Sprintf("%x", ha))
+	switch zz.Choose("edited_member", 5) {
+	case 0:
+		zz.Assume(uint32(b.Period.Seconds()) != uint32(a.Period.Seconds()))
+		doc.Period = uint64(b.Period.Seconds())
+	case 1:
+		zz.Assume(b.GenesisTime != a.GenesisTime)
+		doc.GenesisTime = b.GenesisTime
+	case 2:
+		zz.Assume(!b.PublicKey.Equal(a.PublicKey))
+		raw, _ := b.PublicKey.MarshalBinary()
+		doc.PublicKey = fmt.Sprintf("%x", raw)
+	case 3:
+		zz.Assume(!bytes.Equal(b.GenesisSeed, a.GenesisSeed))
+		doc.GenesisSeed = b.GenesisSeed
+	case 4:
+		zz.Assume(!common.CompareBeaconIDs(b.ID, a.ID))
+		doc.ID = b.ID
+	}
+	forged, err := json.Marshal(doc)
+	if err != nil {
+		panic(err)
+	}
+	target := new(chain.Info)
+	if zz.Bool("decode_into_a_used_object") {
+		target = back // holds chain a and has been hashed already
+		_ = target.Hash()
+	}
+	err = json.Unmarshal(forged, target)
+	zz.Assert("mismatching_embedded_hash_is_rejected", err != nil)
 }
